@@ -20,9 +20,9 @@ import (
 	"math/rand"
 	"os"
 	"sort"
+	"strconv"
 	"strings"
 	"sync/atomic"
-	"time"
 
 	"github.com/cube2222/octosql/plugins/verifharness/cli"
 	"github.com/cube2222/octosql/plugins/verifharness/core"
@@ -116,14 +116,11 @@ func genCase(rng *rand.Rand, i int, quick bool) *tcase {
 		case "dup-header":
 			t := g.tables[0]
 			t.format, t.file, t.dup = "csv", "w0.csv", true
-			// rebuild cells for csv typing is unnecessary: cells are format independent
 			src, dst := rng.Intn(len(t.cols)), rng.Intn(len(t.cols))
 			if src != dst && t.cols[dst].name != "time" && t.cols[src].name != "time" {
 				t.cols[dst].name = t.cols[src].name
 			}
 			g.tables = g.tables[:1]
-			r := g.baseRel(t)
-			_ = r
 			tc.sql, out = g.sel(0, true)
 			tc.dupCSV = true
 		case "flat":
@@ -181,6 +178,11 @@ func genCase(rng *rand.Rand, i int, quick bool) *tcase {
 func Run(c *core.Ctx) core.FinishOpts {
 	applyReplay(c)
 	nCases := c.Pick(500, 12000)
+	if v, err := strconv.Atoi(os.Getenv("VERIF_MAXCASES")); err == nil && v > 0 && v < nCases {
+		// development aid on an overloaded machine: run only a prefix of the tier's case list
+		nCases = v
+		c.Note("case_list_truncated_to", v)
+	}
 	selftest := os.Getenv("VERIF_SELFTEST") == "1"
 	runner := cli.NewRunner(c.BinDir, c.Scratch)
 	var rejected, judged int64
@@ -204,7 +206,7 @@ func Run(c *core.Ctx) core.FinishOpts {
 		Level: "exploration",
 		Rule: "cases = seeded random typed queries (flat / nested / joinref joins / wrapped joins / watermark CTE chain / duplicate-header CSV) over generated files, each run with default flags and with --optimize=false " +
 			"in one output mode; non-trivial = both runs exit 0 and print at least one row; distinct by (SQL, files, mode)",
-		Floor: c.Pick(200, 5000),
+		Floor: c.Pick(200, 4000),
 		Assumptions: []string{
 			"differential oracle: the unoptimized run is the reference; equal wrong answers of both runs are invisible (C01-C03 cover them)",
 			"decoders of package cli; retracting plans compared on consolidated stream_native / batch_table output",
@@ -394,8 +396,6 @@ func firstLine(s string) string {
 	}
 	return trunc(strings.SplitN(s, "\n", 2)[0], 200)
 }
-
-var _ = time.Second
 
 // applyReplay makes `--replay <file>` re-execute exactly the recorded case: seed, tier and case id
 // are taken from the replay file (case ids are a function of (seed, tier, index)).
